@@ -274,6 +274,7 @@ func Cache(ctx context.Context, key interface{}, f ComputeFunc) (interface{}, er
 	defer cache.locker.Unlock(key)
 
 	if child := cache.get(key); child != nil {
+		verifYield("cache.hit")
 		child.node.addOut(&computation.node)
 		return child.value, nil
 	}
@@ -282,6 +283,7 @@ func Cache(ctx context.Context, key interface{}, f ComputeFunc) (interface{}, er
 	if err != nil {
 		return nil, err
 	}
+	verifYield("cache.beforeSet")
 	cache.set(key, child)
 
 	child.node.addOut(&computation.node)
@@ -398,6 +400,7 @@ func (r *Rerunner) run() {
 	ctx = context.WithValue(ctx, dependencySetKey{}, &dependencySet{})
 
 	currentComputation, err := run(ctx, r.f)
+	verifYield("rerunner.afterRun")
 	r.lastRun = time.Now()
 	if err != nil {
 		if err != RetrySentinelError {
@@ -441,6 +444,7 @@ func (r *Rerunner) run() {
 func (r *Rerunner) Stop() {
 	// Call cancelCtx before acquiring the lock as the lock might be held for a long time during a running computation.
 	r.cancelCtx()
+	verifYield("rerunner.stop.cancelled")
 
 	r.mu.Lock()
 	r.stop = true
